@@ -48,7 +48,7 @@ fn judge(st: &mut St, cfg: &CfgD, entry: &EntryD, outcome: Outcome, out: Vec<u8>
     st.cases += 1;
     let small = |e: &EntryD| if e.ops.iter().any(|o| matches!(o, OpD::Value(_, ValD::Metric { obs, .. }) if obs.len() > 100)) { json!("huge (see gen_::huge_obs)") } else { e.to_json() };
     let replay = || if after.is_empty() { json!({"config": cfg.to_json(), "entry": small(entry)}) } else { json!({"config": cfg.to_json(), "entry": small(entry), "on_a_long_lived_formatter_after": after}) };
-    let after_key = if after.is_empty() { "" } else { ":after-huge-entry" };
+    let after_key = if after.is_empty() { "" } else if after.starts_with("clone") { ":on-clone-of-used-formatter" } else { ":after-huge-entry" };
     match &outcome {
         Outcome::Ok => {
             st.ok += 1;
@@ -239,6 +239,25 @@ fn main() {
             }
         }
     }
+    // 4b. a clone of a used formatter: after every prefix of the base entries formatted on one
+    //     long-lived formatter, the formatter is cloned and the clone formats the next entry
+    let mut on_clone = 0u64;
+    for cfg in &cfgs {
+        let mut r = Runner::new(cfg);
+        for frame in frames(tier) {
+            for values in vh_seq::emfx::mutate::base_value_sets() {
+                let entry = build_entry(cfg, frame, values);
+                if let Some(mut c) = r.clone_used() {
+                    let mut out = Vec::new();
+                    let o = c.format(&entry, &mut out);
+                    judge(&mut st, cfg, &entry, o, out, "clone of a formatter that had formatted the base entries before this one");
+                    on_clone += 1;
+                }
+                let mut out = Vec::new();
+                let _ = r.format(&entry, &mut out);
+            }
+        }
+    }
     // 5. entries scaled past the small alphabets
     let mut scaled_cases = 0u64;
     for cfg in scaled_configs() {
@@ -259,6 +278,7 @@ fn main() {
         if let Some(x) = s.sample { rep.sample(x); }
     }
     rep.set("evaluations", cases);
+    rep.set("cases_on_a_clone_of_a_used_formatter", on_clone);
     rep.set("distinct_nontrivial", shapes.len() as u64);
     rep.set("rule", "complete cross products of the alphabets in emfx/gen_.rs (layers A1,A2,B,C), the <=2-edit neighbourhood of valid base entries (layer W), and every Unicode scalar value as name/string; a case is non-trivial if the formatter accepted it, counted distinct by output shape (#records, members per record, directive count, per-member observation count / string length)");
     rep.set("exhaustive", true);
